@@ -6,6 +6,7 @@
 extern int ksim_rxcap, ksim_dgcap;           /* stream receive buffer (bytes) and datagram queue (datagrams) capacities */
 extern unsigned long ksim_clock_ms;          /* virtual clock */
 extern long ksim_calls, ksim_calls_on_bad_fd, ksim_blocking_polls, ksim_polls;
+extern long ksim_calls_on_closed_fd;      /* system calls on a descriptor number that was a socket and has been closed (numbers are not reused inside one history) */
 extern int ksim_sigpipe_ignored, ksim_connect_immediate;
 void ksim_reset(void);
 void ksim_set_block_handler(jmp_buf *jb);    /* standalone mode: a poll that would block forever longjmps here */
